@@ -388,6 +388,8 @@ def check_C05(ctx):
     # string values handed to the command-line tool (--env NAME=VALUE) and printed by it: emitted exactly
     build_cli(ctx)
     validate_sessions(ctx, [ctx.run_cases(ctx.gen("clisession", 6 if ctx.quick else 60), deadline=120)])
+    # text inside blocks and clauses (also where a body holds nothing else but tags that print nothing): whole programs
+    omni(ctx, offset=5)
     ctx.exhaustive = False
     return finish(ctx, rule="MC_C05: the scanner as a state machine over every source of <= L symbols of a delimiter-rich "
                             "alphabet %s (partition/line invariants in every scanner state), each source tokenised by "
@@ -432,6 +434,8 @@ def check_C06(ctx):
     ctx.validate(ctx.run_cases(styled(cases)), module="TraceC06", nontrivial_key=lambda o: o["text"], chunk=20000)
     gen = ctx.gen("nesting", 2000 if ctx.quick else 60000)
     ctx.validate(ctx.run_cases(styled(gen)), module="TraceC06", nontrivial_key=lambda o: o["text"], chunk=20000)
+    # ... and rendered: every piece of content under exactly the blocks and clauses that enclose it (whole programs)
+    omni(ctx, offset=6)
     ctx.exhaustive = False
     return finish(ctx, rule="MC_C06: the parser machine over every token-class sequence of <= %d tokens from the 22-class alphabet "
                             "(extension stops at rejection), compared in every state with an independent recursive-descent "
